@@ -95,9 +95,6 @@ example : run (new 4) [.write [1, 2, 3], .read 2, .write [4, 5], .read 8, .read 
 
 /-! ### the BlockWriter drain loops (D15) -/
 
-/-- a loop result that is neither `hang` nor `panic` -/
-def Terminated {σ} (res : Res (BW σ)) : Prop := ∃ st', res = .done st' ∨ res = .err st'
-
 /-- **`drain_terminates`.**  For EVERY decompressor satisfying the contract (`Drain.Contract`: it cannot answer
     infinitely many non-empty reads without new input, and it uses the ring only through the ring's API), every
     reachable ring of every size, every input packet, every `content_length_left`, every `buffer` size:
@@ -144,58 +141,6 @@ theorem drain_terminates {σ} (D : Decomp σ) (C : Contract D) (st : BW σ) (hin
     simp only [hk, ne_eq, not_true_eq_false, if_false]
     obtain ⟨st', h, _⟩ := decoderRead_ended D C _ ⟨init, r1, pkt.length, cl, []⟩ hi1 (Nat.lt_succ_self _)
     exact ⟨st', h⟩
-
-/-- the "echo" decompressor (hands out what is in the ring): the contract is satisfiable -/
-def echo : Decomp Unit where
-  read := fun s r n =>
-    match Ring.read r n with
-    | .ok (r', .ok b) => (s, r', .ok b)
-    | .ok (r', .wouldBlock) => (s, r', .wouldBlock)
-    | .error _ => (s, r, .err)
-
-/-- the echo decompressor meets the contract with `mu` = number of bytes in the ring (non-vacuity of the hypothesis
-    of `drain_terminates`) -/
-def echoContract : Contract echo where
-  mu := fun _ r => (content r).length
-  read_decreases := by
-    intro s r n s' r' b hinv hr hb
-    obtain ⟨r1, res, hrd, _, _, _, _, ha⟩ := read_refines r n hinv
-    simp only [echo, hrd] at hr
-    cases res with
-    | wouldBlock => simp at hr
-    | ok b1 =>
-      simp only [Prod.mk.injEq, DRead.ok.injEq] at hr
-      obtain ⟨_, hr1, hb1⟩ := hr
-      subst hr1; subst hb1
-      simp only [Lemmas.Ring.abs, Fifo.read, toSpec] at ha
-      by_cases hm : min n (content r).length = 0
-      · simp only [hm, if_true] at ha
-        have h2 := (Prod.mk.inj ha).2
-        by_cases hf : r.finish = true
-        · simp only [hf, if_true] at h2; injection h2 with h2; exact absurd h2.symm hb
-        · simp only [hf] at h2; cases h2
-      · simp only [hm, if_false] at ha
-        have h1 := (Prod.mk.inj ha).1
-        have hq : content r1 = (content r).drop (min n (content r).length) := by
-          have := congrArg Fifo.q h1; simpa using this.symm
-        rw [hq, List.length_drop]
-        omega
-  read_inv := by
-    intro s r n s' r' res hinv hr
-    obtain ⟨r1, res1, hrd, hi, hb, _, _, _⟩ := read_refines r n hinv
-    simp only [echo, hrd] at hr
-    cases res1 with
-    | wouldBlock =>
-      simp only [Prod.mk.injEq] at hr
-      obtain ⟨_, hr1, _⟩ := hr
-      subst hr1; exact ⟨hi, by rw [hb]⟩
-    | ok b1 =>
-      simp only [Prod.mk.injEq] at hr
-      obtain ⟨_, hr1, _⟩ := hr
-      subst hr1; exact ⟨hi, by rw [hb]⟩
-
-/-- A full ring (size 2, one byte held), `content_length_left = Some(0)`, one more input byte to write. -/
-def stuck : BW Unit := ⟨(), ⟨[7, 0], 1, 0, false⟩, 1, some 0, []⟩
 
 /-- **D15, negation witness for the loops before commit 5b2a894**: in the state `stuck` (reachable: gzip object whose
     announced Content-Length has been written while trailer bytes are still to come, ring full) the old
